@@ -114,6 +114,38 @@ class Ctx:
             self.model_runs.append(mr)
         return r
 
+    def apalache(self, module, cinit, init, inv, length, expect_error=False, timeout=600):
+        """One Apalache obligation (symbolic, unbounded in the number of steps when used as an induction step).
+        Returns True when the outcome is as expected; an unexpected outcome is a spec problem (Infra), a tool
+        failure or timeout only a note (the TLC runs of the same module remain the deciding model check)."""
+        import subprocess, time
+        out = os.path.join(self.work, "apalache-%d" % len(self.model_runs))
+        t0 = time.time()
+        try:
+            cp = subprocess.run(["apalache-mc", "check", "--out-dir=" + out, "--cinit=" + cinit, "--init=" + init,
+                                 "--inv=" + inv, "--length=%d" % length, module], cwd=self.specdir(),
+                                stdout=subprocess.PIPE, stderr=subprocess.STDOUT, timeout=timeout)
+            txt = cp.stdout.decode("utf-8", "replace")
+        except (subprocess.TimeoutExpired, OSError) as e:
+            self.log("apalache %s %s/%s/%s: not run (%s)" % (module, cinit, init, inv, type(e).__name__))
+            return False
+        finally:
+            shutil.rmtree(out, ignore_errors=True)
+        ok = "The outcome is: NoError" in txt
+        err = "The outcome is: Error" in txt
+        self.log("apalache %s cinit=%s init=%s inv=%s length=%d: %s %.1fs" % (
+            module, cinit, init, inv, length, "NoError" if ok else "Error" if err else "tool failure", time.time() - t0))
+        if not ok and not err:
+            return False
+        if ok == expect_error:
+            sys.stdout.write(txt[-2000:] + "\n")
+            raise Infra("Apalache obligation %s/%s/%s/%s has the unexpected outcome %s: a spec problem, not a verdict"
+                        % (module, cinit, init, inv, "NoError" if ok else "Error"))
+        self.model_runs.append({"module": module, "cfg": "apalache cinit=%s init=%s inv=%s length=%d" % (cinit, init, inv, length),
+                                "distinct": 0, "generated": 0, "depth": length, "wall_s": round(time.time() - t0, 1),
+                                "outcome": "NoError" if ok else "Error (expected: as-coded design refuted)"})
+        return True
+
     # ------------------------------------------------------------- Go driver
     def modfile(self):
         mf = os.path.join(self.work, "go.mod")
